@@ -629,6 +629,9 @@ pub struct ReplayOpts {
     /// misuse configurations of the dotted types (two replicas editing through ONE actor): layer A has
     /// no meaning for the contents there, only validate_merge is judged (against the spec's vmA)
     pub vm_only: bool,
+    /// delivery regimes under which the type's reads are not defined (e.g. List without causal delivery): only
+    /// validate_op, which is defined for out-of-order ops too, is judged
+    pub vop_only: bool,
     /// replicas 1 and 2 edit through actor 1 (the misuse configurations' MCActorOfShared)
     pub shared_actor: bool,
 }
@@ -832,9 +835,9 @@ impl<'a, E: Engine> Replayer<'a, E> {
             }
         }
         self.cur_sigs = E::sigs(&sys);
-        if self.opts.vm_only {
+        if self.opts.vm_only || self.opts.vop_only {
             self.obligations(&sys, who, ln, h);
-            self.rep.nontriv("misuse_line");
+            self.rep.nontriv(if self.opts.vop_only { "out_of_order_line" } else { "misuse_line" });
             return;
         }
         let s = &sys.st[who - 1];
@@ -1072,7 +1075,7 @@ impl<'a, E: Engine> Replayer<'a, E> {
         let c08 = sys.feats.pending || sys.feats.noncausal;
         let p_reads: Vec<&str> = if c08 { vec!["C09", "C08"] } else { vec!["C09"] };
         let p_state: Vec<&str> = if c08 { vec!["C09", "C20", "C08"] } else { vec!["C09", "C20"] };
-        let misuse = self.opts.misuse || self.opts.vm_only;
+        let misuse = self.opts.misuse || self.opts.vm_only || self.opts.vop_only;
         let vm_only = self.opts.vm_only;
         // C09: re-applying any known op changes nothing (reads, ==)
         for i in sys.know[who - 1].iter() {
@@ -1116,7 +1119,7 @@ impl<'a, E: Engine> Replayer<'a, E> {
                 }
             }
         }
-        if !E::HAS_MERGE {
+        if !E::HAS_MERGE || self.opts.vop_only {
             return;
         }
         // C09: merging a state whose knowledge is subsumed changes nothing
